@@ -291,6 +291,16 @@ def build_ws(ws, prop, batches):
     if pr.returncode == 0:
         return []
     pr = sh(["cargo", "build", "-q", "--keep-going"], cwd=ws, check=False)
+    if "SIGKILL" in pr.stdout or "signal: 9" in pr.stdout:
+        # a compiler process was killed (out of memory while many large crates were compiled at once): not a property
+        # of the generated code. Retries with few parallel jobs, then the usual attribution.
+        for jobs in ("4", "2"):
+            time.sleep(20)
+            pr = sh(["cargo", "build", "-q", "--keep-going", "-j", jobs], cwd=ws, check=False)
+            if pr.returncode == 0:
+                return []
+            if "SIGKILL" not in pr.stdout and "signal: 9" not in pr.stdout:
+                break
     failed = sorted(set(re.findall(r"could not compile `\w+?_b(\d+)`", pr.stdout)), key=int)
     if not failed:
         # no generated crate is at fault: typically a compiler process killed for lack of memory while many large
